@@ -66,16 +66,12 @@ theorem drain_chunkData (c tail : Bytes) (hk : c ≠ []) :
 
 /-- draining the writer's chunked encoding of `chunks` (followed by anything) from the chunk-size
 state yields exactly the bytes of the chunks, in order, then end-of-message -/
-theorem drain_writeChunked (chunks : List Bytes) (rest : Bytes)
+theorem drain_writeChunked_fold (chunks : List Bytes) (rest : Bytes)
     (hsz : ∀ c ∈ chunks, (hexLower c.length).length ≤ 20) :
-    ∃ evs, (reader ri).drain .chunkSize (writeChunked chunks ++ rest) = (evs, .done, rest) ∧
-      observe evs = { head := none, bodyRev := chunks.flatten.reverse, outcome := .complete } := by
-  suffices h : ∀ (o : Obs), ∃ evs,
+    ∀ (o : Obs), ∃ evs,
       (reader ri).drain .chunkSize (writeChunked chunks ++ rest) = (evs, .done, rest) ∧
       evs.foldl absorb o = { o with bodyRev := chunks.flatten.reverse ++ o.bodyRev,
-                                    outcome := .complete } by
-    obtain ⟨evs, h1, h2⟩ := h {}
-    exact ⟨evs, h1, by simpa [observe] using h2⟩
+                                    outcome := .complete } := by
   induction chunks with
   | nil =>
     intro o
@@ -124,5 +120,14 @@ theorem drain_writeChunked (chunks : List Bytes) (rest : Bytes)
       · simp only [List.foldl_cons, List.foldl_append, absorb, foldl_absorb_data, List.foldl_nil]
         rw [h2]
         simp
+
+/-- draining the writer's chunked encoding of `chunks` (followed by anything) from the chunk-size
+state yields exactly the bytes of the chunks, in order, then end-of-message -/
+theorem drain_writeChunked (chunks : List Bytes) (rest : Bytes)
+    (hsz : ∀ c ∈ chunks, (hexLower c.length).length ≤ 20) :
+    ∃ evs, (reader ri).drain .chunkSize (writeChunked chunks ++ rest) = (evs, .done, rest) ∧
+      observe evs = { head := none, bodyRev := chunks.flatten.reverse, outcome := .complete } := by
+  obtain ⟨evs, h1, h2⟩ := drain_writeChunked_fold ri chunks rest hsz {}
+  exact ⟨evs, h1, by simpa [observe] using h2⟩
 
 end Httpcore.H1W
